@@ -331,6 +331,9 @@ def table_to_source_list(table, src_type=ComponentSource):
             if param in table.colnames:
                 # copy the value to our object
                 val = row[param]
+                # missing/NaN cells are masked by the VOTable and FITS readers
+                if val is np.ma.masked:
+                    val = np.nan
                 # hack around float32's broken-ness
                 if isinstance(val, np.float32):
                     val = np.float64(val)
